@@ -1,0 +1,143 @@
+//! Verification hooks, only compiled with the `verif` cargo feature.
+//!
+//! Nothing in here changes behaviour unless a harness installs a callback or
+//! enables the virtual clock. With the feature off this module does not exist.
+use std::cell::Cell;
+use std::sync::atomic::{AtomicBool, AtomicU64, AtomicUsize, Ordering};
+use std::time::Duration;
+
+static CLOCK_ON: AtomicBool = AtomicBool::new(false);
+static CLOCK: AtomicU64 = AtomicU64::new(0);
+
+thread_local! {
+    static DRIVER: Cell<bool> = const { Cell::new(false) };
+}
+
+/// Enable the virtual clock at `start` ns and make the calling thread its driver.
+pub fn clock_enable(start: u64) {
+    CLOCK.store(start, Ordering::SeqCst);
+    CLOCK_ON.store(true, Ordering::SeqCst);
+    DRIVER.with(|d| d.set(true));
+}
+
+/// Mark (or unmark) the calling thread as a driver of the virtual clock.
+pub fn set_driver(on: bool) {
+    DRIVER.with(|d| d.set(on));
+}
+
+/// The virtual time, if the virtual clock is enabled.
+#[must_use]
+pub fn clock_now() -> Option<u64> {
+    if CLOCK_ON.load(Ordering::Relaxed) {
+        Some(CLOCK.load(Ordering::SeqCst))
+    } else {
+        None
+    }
+}
+
+/// Set the virtual time.
+pub fn clock_set(ns: u64) {
+    CLOCK.store(ns, Ordering::SeqCst);
+}
+
+/// `true` if the virtual clock is on and the calling thread drives it.
+#[must_use]
+pub fn is_virtual_driver() -> bool {
+    CLOCK_ON.load(Ordering::Relaxed) && DRIVER.try_with(Cell::get).unwrap_or(false)
+}
+
+/// Advance the virtual clock by `dur` (saturating) if the calling thread drives it.
+/// Returns `true` if the clock was advanced, i.e. the caller must not really block.
+pub fn clock_advance(dur: Duration) -> bool {
+    if !is_virtual_driver() {
+        return false;
+    }
+    let d = u64::try_from(dur.as_nanos()).unwrap_or(u64::MAX);
+    let now = CLOCK.load(Ordering::SeqCst);
+    CLOCK.store(now.saturating_add(d), Ordering::SeqCst);
+    observe("clock_advance", d, now);
+    true
+}
+
+macro_rules! slot {
+    ($slot:ident, $setter:ident, $ty:ty, $doc:literal) => {
+        static $slot: AtomicUsize = AtomicUsize::new(0);
+
+        #[doc = $doc]
+        pub fn $setter(f: Option<$ty>) {
+            $slot.store(f.map_or(0, |f| f as usize), Ordering::SeqCst);
+        }
+    };
+}
+
+slot!(
+    POINT,
+    set_point_hook,
+    fn(&'static str),
+    "Install the pause-point callback."
+);
+slot!(
+    CHOICE,
+    set_choice_hook,
+    fn(&'static str, usize) -> usize,
+    "Install the callback that resolves internal random choices."
+);
+slot!(
+    WAIT,
+    set_wait_hook,
+    fn(i32, bool, u64) -> i32,
+    "Install the scripted readiness-wait callback: (fd, write, timeout ns) -> 0 pass through, 1 ready, 2 error."
+);
+slot!(
+    OBSERVE,
+    set_observe_hook,
+    fn(&'static str, u64, u64),
+    "Install the observer callback."
+);
+
+/// A named pause point. No-op unless a harness installed a callback.
+#[inline]
+pub fn point(label: &'static str) {
+    let p = POINT.load(Ordering::SeqCst);
+    if p != 0 {
+        let f: fn(&'static str) = unsafe { std::mem::transmute(p) };
+        f(label);
+    }
+}
+
+/// Resolve an internal random choice in `0..n`. `None` means "use the real source".
+#[must_use]
+pub fn choice(site: &'static str, n: usize) -> Option<usize> {
+    let p = CHOICE.load(Ordering::SeqCst);
+    if p == 0 || n == 0 {
+        return None;
+    }
+    let f: fn(&'static str, usize) -> usize = unsafe { std::mem::transmute(p) };
+    Some(f(site, n) % n)
+}
+
+/// Scripted answer for a readiness wait. `None` means "really wait".
+#[must_use]
+pub fn scripted_wait(fd: i32, write: bool, timeout: Option<Duration>) -> Option<std::io::Result<()>> {
+    let p = WAIT.load(Ordering::SeqCst);
+    if p == 0 {
+        return None;
+    }
+    let f: fn(i32, bool, u64) -> i32 = unsafe { std::mem::transmute(p) };
+    let t = timeout.map_or(u64::MAX, |d| u64::try_from(d.as_nanos()).unwrap_or(u64::MAX));
+    match f(fd, write, t) {
+        0 => None,
+        1 => Some(Ok(())),
+        _ => Some(Err(std::io::Error::other("scripted wait error"))),
+    }
+}
+
+/// Report an internal event to the harness. Async-signal-safe as long as the callback is.
+#[inline]
+pub fn observe(kind: &'static str, a: u64, b: u64) {
+    let p = OBSERVE.load(Ordering::SeqCst);
+    if p != 0 {
+        let f: fn(&'static str, u64, u64) = unsafe { std::mem::transmute(p) };
+        f(kind, a, b);
+    }
+}
